@@ -25,8 +25,8 @@ func init() {
 	for k := range ghostSorts {
 		ghostAll = append(ghostAll, "G."+k)
 	}
-	wrG := []string{"G.wr_failed", "G.wr_offered", "G.wr_calls", "G.crc_hi", "G.crc_lo", "G.crc_src"}
-	rdG := []string{"G.rd_pos", "G.rd_left", "G.crc_hi", "G.crc_lo", "G.crc_src", "F.io.LimitedReader.N"}
+	wrG := []string{"G.wr_failed", "G.wr_offered", "G.wr_calls", "G.wr_last", "G.crc_hi", "G.crc_lo", "G.crc_src", "G.crc_last"}
+	rdG := []string{"G.rd_pos", "G.rd_left", "G.rd_eof", "G.crc_hi", "G.crc_lo", "G.crc_src", "G.crc_last", "F.io.LimitedReader.N"}
 	natives = map[string]nativeFn{}
 	nativeMods = map[string][]string{}
 	reg := func(name string, mods []string, fn nativeFn) {
@@ -122,6 +122,14 @@ func init() {
 			e := f.e
 			dst, src := e.scalar(args[0]), e.scalar(args[1])
 			f.safetyOb("nopanic:nil", pc, fmt.Sprintf("(and (not (= %s 0)) (not (= %s 0)))", dst, src), in.Pos(), in)
+			if !limited {
+				// the destination is a writer of the verified packages built in this function: io.Copy is a loop of its Write
+				if info, ok := e.ifaces[dst]; ok {
+					if m := e.w.prog.LookupMethod(info.Dyn, nil, "Write"); m != nil && e.w.inScope(m) && m.Blocks != nil && len(m.Params) == 2 {
+						return f.copyLoop(in, args, pc, h, nm, resT, m, info.P)
+					}
+				}
+			}
 			discard := dst == q("gv.io.Discard")
 			if !discard {
 				f.writerPre(h, dst, pc, in)
@@ -141,6 +149,10 @@ func init() {
 				f.writerMany(h, dst, n, er)
 			}
 			f.readerAdvance(h, src, n, pc)
+			if !limited {
+				eof := e.ghost(h, "rd_eof")
+				e.setGhost(h, "rd_eof", eof, src, fmt.Sprintf("(or (select %s %s) (= %s 0))", eof, src, er))
+			}
 			f.setResult(in, rv)
 			return true
 		}
@@ -257,7 +269,15 @@ func init() {
 		"github.com/klauspost/compress/zstd.WithEncoderLevel", "github.com/pierrec/lz4/v4.CompressionLevelOption"} {
 		reg(n, nil, pureFresh(false))
 	}
-	for _, n := range []string{"bytes.NewReader", "bytes.NewBuffer", "bufio.NewReader", "bufio.NewReaderSize", "bufio.NewWriter", "hash/crc32.NewIEEE", "github.com/pierrec/lz4/v4.NewReader", "github.com/pierrec/lz4/v4.NewWriter",
+	reg("hash/crc32.NewIEEE", []string{"G.crc_hi"}, func(f *frame, in ssa.Instruction, callee *ssa.Function, args []Val, pc string, h *Heap, nm string, resT types.Type) bool {
+		e := f.e
+		r := e.newRef(nm + ".hash")
+		hi := e.ghost(h, "crc_hi")
+		e.setGhost(h, "crc_hi", hi, r, "0") // a new hash has absorbed nothing
+		f.setResult(in, Sc{r})
+		return true
+	})
+	for _, n := range []string{"bytes.NewReader", "bytes.NewBuffer", "bufio.NewReader", "bufio.NewReaderSize", "bufio.NewWriter", "github.com/pierrec/lz4/v4.NewReader", "github.com/pierrec/lz4/v4.NewWriter",
 		"compress/bzip2.NewReader", "strings.NewReader", "io.MultiReader", "io.TeeReader", "io.NopCloser", "io.NewSectionReader"} {
 		reg(n, nil, pureFresh(true))
 	}
@@ -564,6 +584,8 @@ func init() {
 			// hash.Hash: "It never returns an error" (documented); the hash absorbs exactly p
 			hi := e.ghost(h, "crc_hi")
 			e.setGhost(h, "crc_hi", hi, r, fmt.Sprintf("(+ (select %s %s) %s)", hi, r, s.L))
+			last := e.ghost(h, "crc_last")
+			e.setGhost(h, "crc_last", last, r, fmt.Sprintf("(slid %s %s %s)", s.B, s.O, s.L))
 			f.setResult(in, TupleV{Sc{s.L}, Sc{"0"}})
 			return true
 		}
@@ -573,6 +595,8 @@ func init() {
 		// io.Writer (A2): 0 <= n <= len(p); n < len(p) implies a non-nil error
 		e.assume(fmt.Sprintf("(and (<= 0 %s) (<= %s %s) (=> (< %s %s) (not (= %s 0))))", n, n, s.L, n, s.L, er))
 		f.writerOne(h, r, s.L, er)
+		last := e.ghost(h, "wr_last")
+		e.setGhost(h, "wr_last", last, r, fmt.Sprintf("(slid %s %s %s)", s.B, s.O, s.L))
 		f.setResult(in, rv)
 		return true
 	})
@@ -615,8 +639,33 @@ func init() {
 	regI("Close/0:1", nil, simple(nil))
 	regI("Error/0:1", nil, simple(nil))
 	regI("String/0:1", nil, simple(nil))
-	regI("Sum32/0:1", nil, simple(nil))
-	regI("Reset/0:0", []string{"G.crc_hi", "G.crc_lo", "G.crc_src"}, simple([]string{"G.crc_hi", "G.crc_lo", "G.crc_src"}))
+	regI("Sum32/0:1", nil, func(f *frame, in ssa.Instruction, c *ssa.CallCommon, r string, args []Val, pc string, h *Heap, nm string, resT types.Type) bool {
+		e := f.e
+		if !isHashType(c.Value.Type()) {
+			f.setResult(in, e.havocVal(nm, resT))
+			return true
+		}
+		// the checksum is a function of the hash object's history: of the bytes it absorbed since it was created or reset;
+		// the CRC-32 of no bytes is 0
+		hi := e.ghost(h, "crc_hi")
+		cnt := fmt.Sprintf("(select %s %s)", hi, r)
+		v := e.define(nm, "Int", fmt.Sprintf("(ite (= %s 0) 0 (crcsum %s %s))", cnt, r, cnt))
+		e.assume(rangeFact(resT, v))
+		f.setResult(in, Sc{v})
+		return true
+	})
+	regI("Reset/0:0", []string{"G.crc_hi", "G.crc_lo", "G.crc_src", "G.crc_last"}, func(f *frame, in ssa.Instruction, c *ssa.CallCommon, r string, args []Val, pc string, h *Heap, nm string, resT types.Type) bool {
+		e := f.e
+		if isHashType(c.Value.Type()) {
+			hi := e.ghost(h, "crc_hi")
+			e.setGhost(h, "crc_hi", hi, r, "0") // hash.Hash.Reset: back to the initial state
+			return true
+		}
+		for _, m := range []string{"G.crc_hi", "G.crc_lo", "G.crc_src", "G.crc_last"} {
+			e.havocHeapComp(h, m)
+		}
+		return true
+	})
 	regI("Reset/1:0", nil, simple(nil)) // ResettableWriteCloser.Reset(io.Writer): A6 — does not write to the new destination
 	regI("Reset/1:1", nil, simple(nil)) // ResettableReader.Reset(io.Reader) error
 	regI("Compressor/0:1", nil, simple(nil))
@@ -750,4 +799,102 @@ func pureExternal(name string) bool {
 		}
 	}
 	return false
+}
+
+// copyLoop models io.Copy(dst, src) for a destination whose Write method belongs to the verified packages as the loop
+// it is: any number of dst.Write(p) calls, stopping at the first write that fails or is short, at a read error, or at
+// the end of the source. The call-site clauses `call Copy#k invariant I` give the loop invariant; `copied` names the
+// number of bytes written so far. Obligations: I holds before the copy (inv-init), every precondition of Write follows
+// from I, and a complete write re-establishes I (inv-keep). Afterwards I is known wherever the copy stopped between
+// two writes, and the state after a failed write is the one Write's contract (or body) describes.
+func (f *frame) copyLoop(in ssa.Instruction, args []Val, pc string, h *Heap, nm string, resT types.Type, target *ssa.Function, recvArg Val) bool {
+	e := f.e
+	c := in.(ssa.CallInstruction).Common()
+	src := e.scalar(args[1])
+	invs := f.callClauses(in, "call-invariant")
+	key := f.callKeyOf(in)
+	mkEnv := func(hh *Heap, copied string) *Env {
+		env := f.callEnv(in, c, args, hh)
+		env.vars["copied"] = TV{Sc{copied}, types.Typ[types.Int64]}
+		return env
+	}
+	for _, cl := range invs {
+		ts, ls := e.conjuncts(mkEnv(h, "0"), cl.Expr, "")
+		for i := range ts {
+			e.ob(f, "inv-init", key+": "+cl.clabel(ls[i]), cl.tagsOr(f.tags), pc, ts[i], in.Pos())
+		}
+	}
+	// state between two writes: whatever Write may change has changed; the source's own state has changed
+	// (A7: the source holds no reference to the destination, its sink or its hashes)
+	head0 := h.clone()
+	mods, all := e.w.modsOf(target)
+	hm := map[string]bool{}
+	for k := range mods {
+		hm[k] = true
+	}
+	for _, fn := range e.w.implByKey("Read", "1:2") {
+		m, _ := e.w.modsOf(fn)
+		for k := range m {
+			if strings.HasPrefix(k, "G.wr_") || strings.HasPrefix(k, "G.crc_") || k == "E.uint8" {
+				continue
+			}
+			hm[k] = true
+		}
+	}
+	hm["G.rd_pos"], hm["G.rd_left"], hm["G.rd_eof"] = true, true, true
+	touched, _ := f.touchedOf()
+	f.havocModsT(h, hm, all, touched, nil, f.objFramed)
+	e.bumpWater(nm + ".copy")
+	copied := e.fresh(nm+".copied", "Int")
+	e.assume(fmt.Sprintf("(and (>= %s 0) (<= %s 9223372036854775807))", copied, copied)) // io.Copy counts in an int64
+	for _, cl := range invs {
+		e.assumeIf(pc, e.evalBool(mkEnv(h, copied), cl.Expr))
+	}
+	head := h.clone()
+	// one more write of an arbitrary buffer
+	p := e.havocVal(nm+".p", types.NewSlice(types.Typ[types.Uint8])).(SliceV)
+	e.assume(fmt.Sprintf("(and (> %s 0) (<= %s %s))", p.B, p.B, e.water()))
+	saved, had := f.vals[in.(ssa.Value)]
+	alive := f.staticCall(in, target, []Val{recvArg, p}, nil, pc, h, nm+".w", types.NewTuple(types.NewVar(0, nil, "", types.Typ[types.Int]), types.NewVar(0, nil, "", types.Universe.Lookup("error").Type())), in.Pos())
+	var nw, ew string
+	if tv, ok := f.vals[in.(ssa.Value)].(TupleV); ok && len(tv) == 2 && alive {
+		nw, ew = e.scalar(tv[0]), e.scalar(tv[1])
+	} else {
+		nw, ew = e.fresh(nm+".nw", "Int"), e.fresh(nm+".ew", "Int")
+	}
+	if had {
+		f.vals[in.(ssa.Value)] = saved
+	}
+	okW := e.define(nm+".wok", "Bool", fmt.Sprintf("(and (= %s 0) (= %s %s))", ew, nw, p.L))
+	for _, cl := range invs {
+		ts, ls := e.conjuncts(mkEnv(h, fmt.Sprintf("(+ %s %s)", copied, p.L)), cl.Expr, "")
+		for i := range ts {
+			e.ob(f, "inv-keep", key+": "+cl.clabel(ls[i]), cl.tagsOr(f.tags), and(pc, okW), ts[i], in.Pos())
+		}
+	}
+	// where the copy stops
+	which := e.fresh(nm+".stop", "Int")
+	e.assume(fmt.Sprintf("(and (<= 0 %s) (<= %s 2) (=> (= %s 2) (not %s)))", which, which, which, okW))
+	cEOF := fmt.Sprintf("(= %s 0)", which)
+	cRd := fmt.Sprintf("(= %s 1)", which)
+	cWr := fmt.Sprintf("(= %s 2)", which)
+	merged := e.mergeHeaps([]string{and(pc, cEOF), and(pc, cRd), and(pc, cWr)}, []*Heap{head, head, h})
+	*h = *merged
+	rerr := e.newRef(nm + ".rderr")
+	e.assume(fmt.Sprintf("(and (not (isEOF %s)) (> %s 0))", rerr, rerr))
+	short := e.global("gv.io.ErrShortWrite", "Int")
+	e.assume(fmt.Sprintf("(and (> %s 0) (not (isEOF %s)) (not (isUEOF %s)) (not (isCRC %s)))", short, short, short, short))
+	nres := e.define(nm+".n", "Int", fmt.Sprintf("(ite %s (+ %s (ite (and (<= 0 %s) (<= %s %s)) %s 0)) %s)", cWr, copied, nw, nw, p.L, nw, copied))
+	eres := e.define(nm+".err", "Int", fmt.Sprintf("(ite %s 0 (ite %s %s (ite (= %s 0) %s %s)))", cEOF, cRd, rerr, ew, short, ew))
+	e.assume(fmt.Sprintf("(and (>= %s 0) (<= %s 9223372036854775807))", nres, nres))
+	// the source: consumed exactly n bytes and reported end-of-file when the copy ended cleanly; a failed write may have
+	// consumed more than was written
+	extra := e.fresh(nm+".readahead", "Int")
+	e.assume(fmt.Sprintf("(and (>= %s 0) (=> (not %s) (= %s 0)))", extra, cWr, extra))
+	pos0 := e.ghost(head0, "rd_pos")
+	e.setGhost(h, "rd_pos", e.ghost(h, "rd_pos"), src, fmt.Sprintf("(+ (select %s %s) %s %s)", pos0, src, nres, extra))
+	eof := e.ghost(h, "rd_eof")
+	e.setGhost(h, "rd_eof", eof, src, fmt.Sprintf("(or (select %s %s) %s)", eof, src, cEOF))
+	f.setResult(in, TupleV{Sc{nres}, Sc{eres}})
+	return true
 }
